@@ -32,6 +32,8 @@ Definition dec_vcall (x : sx) : vcall :=
 Definition dec_cont (x : sx) : cont :=
   match sx_z x with 0%Z => CRef | 1%Z => CBox | 2%Z => CArc | _ => CCow end.
 
+Definition dec_lift (x : sx) : lift :=
+  match sx_z x with 0%Z => LRef | 1%Z => LSome | 2%Z => LNone | 3%Z => LBox | 4%Z => LArc | _ => LCow end.
 Fixpoint dec_value (fuel : nat) (x : sx) : wvalue :=
   match fuel with
   | O => PlainV VNone
@@ -44,7 +46,9 @@ Fixpoint dec_value (fuel : nat) (x : sx) : wvalue :=
     | 4%Z => WithDimsV (dec_value k (sx_arg x 0)) (dec_dims (sx_arg x 1))
     | 5%Z => ForceV (dec_value k (sx_arg x 0)) (dec_flagv (sx_arg x 1))
     | 6%Z => GDimsV (dec_value k (sx_arg x 0)) (dec_dims (sx_arg x 1))
-    | _ => DynV (dec_value k (sx_arg x 0))
+    | 7%Z => DynV (dec_value k (sx_arg x 0))
+    | 8%Z => FormattedV (map dec_lift (sx_list (sx_arg x 0))) (dec_vcall (sx_arg x 1))
+    | _ => ToStringV (sx_bytes (sx_arg x 0))
     end
   end.
 Definition FUEL := 64%nat.
